@@ -140,8 +140,50 @@ func (t *T) OnFS(f func(op, path string)) {}
 func (t *T) FSMutations() int { return 0 }
 
 // RunUntilCrash runs f and kills the "process" immediately before its k-th
-// file-system mutation (engine only; natively f runs to completion).
+// file-system mutation. Under the engine the cut is exact. Natively the real
+// process cannot be cut at a model mutation, so the replay does not run f:
+// it materialises the crash image the engine computed from the real code (the
+// on-disk state at the cut, with the solver's values) in the temp root and
+// reports the crash; the recovery half of the scenario then runs against the
+// real, compiled code. Without an image for this call f simply runs.
 func (t *T) RunUntilCrash(k int, f func()) bool {
+	call := t.crashCalls
+	t.crashCalls++
+	for _, img := range t.images {
+		if img.Call != call {
+			continue
+		}
+		root := t.TempRoot()
+		for _, fl := range img.Files {
+			p := filepath.Join(root, fl.Path)
+			if fl.Dir {
+				os.MkdirAll(p, 0o755)
+				continue
+			}
+			os.MkdirAll(filepath.Dir(p), 0o755)
+			var data []byte
+			if fl.Text != "" || len(fl.Segs) == 0 {
+				text := fl.Text
+				// the engine's model hashes ("md5-<tag>") stand for the real MD5s
+				for tag, size := range versions {
+					text = strings.ReplaceAll(text, "md5-"+tag, fmt.Sprintf("%x", md5.Sum(gen(tag, 0, size))))
+				}
+				data = []byte(text)
+				if int64(len(data)) < fl.Size {
+					data = append(data, make([]byte, fl.Size-int64(len(data)))...)
+				}
+			} else {
+				data = make([]byte, fl.Size)
+				for _, sg := range fl.Segs {
+					copy(data[sg.Off:], gen(sg.Tag, sg.Src, sg.N))
+				}
+			}
+			if err := os.WriteFile(p, data, 0o644); err != nil {
+				panic(replayMismatch{"crash image: " + err.Error()})
+			}
+		}
+		return true
+	}
 	f()
 	t.Quiesce()
 	return false
